@@ -30,8 +30,8 @@ pub fn history(seed: u64, idx: u64) -> Case {
     let mut counters: BTreeMap<String, u64> = BTreeMap::new();
     let mut nontrivial = false;
     rt.block_on(async {
-        let (server, port, acc) = start(0).await.expect("listener");
-        let cfg = Config::from_url(format!("redis://127.0.0.1:{}/", port));
+        let (server, sock, acc) = start_unix().await.expect("listener");
+        let cfg = Config::from_url(format!("unix://{}", sock.0.display()));
         let pool = cfg
             .builder()
             .expect("builder")
@@ -279,8 +279,8 @@ pub fn ping_race(seed: u64, idx: u64) -> Case {
     let mut counters: BTreeMap<String, u64> = BTreeMap::new();
     let mut log = vec![config_desc.clone()];
     rt.block_on(async {
-        let (server, port, acc) = start(0).await.expect("listener");
-        let cfg = Config::from_url(format!("redis://127.0.0.1:{}/", port));
+        let (server, sock, acc) = start_unix().await.expect("listener");
+        let cfg = Config::from_url(format!("unix://{}", sock.0.display()));
         let pool = cfg.builder().expect("builder").max_size(conns).runtime(Runtime::Tokio1).build().expect("build");
         let mut hs = Vec::new();
         for _ in 0..tasks {
